@@ -161,6 +161,17 @@ def gen(with_override=False):
                 changed += ch2
             except ImportError:
                 pass
+        # --- c2g: source-to-Gallina translator (tools/c2gallina.py): Gen/Funcs.v + Gen/FuncsCheck.v from clang's AST of
+        # REPO/src/static.c.  Written only when the content changed (make stays incremental).  A function that can no
+        # longer be translated is not a gen failure: it becomes a stub and is reported by the C16 check
+        # (build/c2g_report.json); generate() never raises.
+        try:
+            import c2gallina
+            ok3, msg3, ch3 = c2gallina.generate()
+            changed += ["Gen/" + c for c in ch3]
+        except ImportError:
+            pass
+        # --- end c2g
         return True, "", changed
 
 
@@ -476,6 +487,7 @@ GLOBAL_TRUSTED = [
     "Coq 8.16.1 kernel + vm_compute (no native_compute); independent re-check with coqchk -o: tools/coqchk (separate command, output in evidence/coqchk.txt)",
     "Coq standard library (NArith, ZArith, List, Lia/nia, Zify); no axioms declared by this development",
     "translator harness/gen_dump.c + C compiler (coq/Gen/*.v regenerated from /repo on every run)",
+    "translator tools/c2gallina.py + clang 14 -ast-dump=json + coq/Model/CSem.v (coq/Gen/Funcs.v regenerated from /repo on every run; NOTES-c2g.md)",
     "extraction: ExtrOcamlBasic only (bool, option, list, prod, unit, sumbool mapped to OCaml's), no Extract Constant; OCaml 4.13.1; hand-written ocaml/*.ml replay drivers",
     "C harnesses under harness/ (include /repo/src/static.c as one translation unit) and the gcc toolchain",
 ]
